@@ -787,6 +787,22 @@ impl TcpConnecter {
       }
       attempt_count += 1;
 
+      // The subscription above only sees events published after this task started running.
+      // A ContextTerminating / SocketClosing published between spawn and subscribe is gone,
+      // so also consult the flags those events set.
+      if self
+        .context
+        .inner()
+        .shutdown_initiated
+        .load(std::sync::atomic::Ordering::Acquire)
+        || !self.socket_logic.core().is_running()
+      {
+        last_connect_attempt_error = Some(ZmqError::Internal(
+          "Shutdown by context/parent socket already shutting down (pre-connect).".into(),
+        ));
+        break 'connecter_life_loop;
+      }
+
       match system_event_rx.try_recv() {
         Ok(SystemEvent::ContextTerminating) => {
           last_connect_attempt_error = Some(ZmqError::Internal(
